@@ -9,13 +9,7 @@ import Girc.Model.Names
 namespace Girc.Model
 open Girc
 
-structure Perms where
-  owner : Bool := false
-  admin : Bool := false
-  op : Bool := false
-  halfop : Bool := false
-  voice : Bool := false
-  deriving DecidableEq, Repr, Inhabited
+-- `Perms` is declared (under this same name) in Girc/Base/GoSem.lean.
 
 -- `CMode` and `CModes` are declared (under these same names) in Girc/Base/GoSem.lean, shared with the generated
 -- Gen/Funcs.lean.
